@@ -78,33 +78,33 @@ pub fn str_as_bytes(v: &str) -> (r: &[u8]) ensures r@ == str_bytes(v) { v.as_byt
     ] + [
         dict(kind="raw", name="<impl-open>", text="impl<F: Flavor> Serializer<F> {\n"),
     ] + [push_varint(w) for w in ["usize", "u128", "u64", "u32", "u16"]] + [
-        method("serialize_u8", "r is Ok ==> " + OUT + " + seq![v]"),
-        method("serialize_bool", "r is Ok ==> " + OUT + " + seq![if v { 1u8 } else { 0u8 }]"),
+        method("serialize_u8", "r is Ok ==> " + OUT + " + seq![§p1§]"),
+        method("serialize_bool", "r is Ok ==> " + OUT + " + seq![if §p1§ { 1u8 } else { 0u8 }]"),
     ] + [
-        method("serialize_u%d" % b, "r is Ok ==> " + OUT + " + enc(v as nat)") for b in [16, 32, 64, 128]
+        method("serialize_u%d" % b, "r is Ok ==> " + OUT + " + enc(§p1§ as nat)") for b in [16, 32, 64, 128]
     ] + [
-        method("serialize_i%d" % b, "r is Ok ==> " + OUT + " + enc(zz(v as int))") for b in [16, 32, 64, 128]
+        method("serialize_i%d" % b, "r is Ok ==> " + OUT + " + enc(zz(§p1§ as int))") for b in [16, 32, 64, 128]
     ] + [
-        method("serialize_str", "r is Ok ==> " + OUT + " + enc(str_bytes(v).len()) + str_bytes(v)",
-               extra_rewrites=[(r"v\.len\(\)", "str_len(v)", 1, 1), (r"v\.as_bytes\(\)", "str_as_bytes(v)", 1, 1)]),
-        method("serialize_bytes", "r is Ok ==> " + OUT + " + enc(v@.len()) + v@"),
+        method("serialize_str", "r is Ok ==> " + OUT + " + enc(str_bytes(§p1§).len()) + str_bytes(§p1§)",
+               extra_rewrites=[(r"(\w+)\.len\(\)", r"str_len(\1)", 1, 1), (r"(\w+)\.as_bytes\(\)", r"str_as_bytes(\1)", 1, 1)]),
+        method("serialize_bytes", "r is Ok ==> " + OUT + " + enc(§p1§@.len()) + §p1§@"),
         method("serialize_none", "r is Ok ==> " + OUT + " + seq![0u8]"),
-        method("serialize_some", "r is Ok ==> " + OUT + " + seq![1u8] + value.wire()", generic=True,
-               extra_rewrites=[(r"value\.serialize\(self\)", "value.serialize(self)", 1, 1)]),
+        method("serialize_some", "r is Ok ==> " + OUT + " + seq![1u8] + §p1§.wire()", generic=True,
+               ),
         method("serialize_unit", "r is Ok && " + OUT),
         method("serialize_unit_struct", "r is Ok && " + OUT),
-        method("serialize_unit_variant", "r is Ok ==> " + OUT + " + enc(variant_index as nat)"),
-        method("serialize_newtype_struct", "r is Ok ==> " + OUT + " + value.wire()", generic=True),
-        method("serialize_newtype_variant", "r is Ok ==> " + OUT + " + enc(variant_index as nat) + value.wire()", generic=True),
-        method("serialize_seq", "r is Ok ==> len is Some && " + OUT + " + enc(len->Some_0 as nat),\n            len is None ==> r is Err",
+        method("serialize_unit_variant", "r is Ok ==> " + OUT + " + enc(§p2§ as nat)"),
+        method("serialize_newtype_struct", "r is Ok ==> " + OUT + " + §p2§.wire()", generic=True),
+        method("serialize_newtype_variant", "r is Ok ==> " + OUT + " + enc(§p2§ as nat) + §p4§.wire()", generic=True),
+        method("serialize_seq", "r is Ok ==> §p1§ is Some && " + OUT + " + enc(§p1§->Some_0 as nat),\n            §p1§ is None ==> r is Err",
                extra_rewrites=COMPOUND),
         method("serialize_tuple", "r is Ok && " + OUT, extra_rewrites=COMPOUND),
         method("serialize_tuple_struct", "r is Ok && " + OUT, extra_rewrites=COMPOUND),
-        method("serialize_tuple_variant", "r is Ok ==> " + OUT + " + enc(variant_index as nat)", extra_rewrites=COMPOUND),
-        method("serialize_map", "r is Ok ==> len is Some && " + OUT + " + enc(len->Some_0 as nat),\n            len is None ==> r is Err",
+        method("serialize_tuple_variant", "r is Ok ==> " + OUT + " + enc(§p2§ as nat)", extra_rewrites=COMPOUND),
+        method("serialize_map", "r is Ok ==> §p1§ is Some && " + OUT + " + enc(§p1§->Some_0 as nat),\n            §p1§ is None ==> r is Err",
                extra_rewrites=COMPOUND),
         method("serialize_struct", "r is Ok && " + OUT, extra_rewrites=COMPOUND),
-        method("serialize_struct_variant", "r is Ok ==> " + OUT + " + enc(variant_index as nat)", extra_rewrites=COMPOUND),
+        method("serialize_struct_variant", "r is Ok ==> " + OUT + " + enc(§p2§ as nat)", extra_rewrites=COMPOUND),
         dict(kind="raw", name="<impl-close>", text="}\n"),
     ],
 )
